@@ -14,7 +14,7 @@ from simtz import clientsim as cs
 from simtz.runner import rng_for
 
 ID = 'C24'
-QUICK_RUNS = 3000
+QUICK_RUNS = 2000
 QUICK_BUDGET_S = 90
 CHUNK = 50
 CHUNK_TIMEOUT_S = 900
@@ -39,9 +39,9 @@ ASSUMPTIONS = [
     'Constants are the protocol defaults served by the node (hard_gas_limit_per_operation 1040000, hard_storage_limit_per_operation 60000).',
     'Fault injection adds little here (stated in DESIGN.md): most runs are fault-free; transient bursts and latency are sampled in a minority.',
 ]
-EXPECTED_PROBES = ['batch_ge_8', 'tz4_judged', 'fee_varint_3_bytes', 'gas_near_hard_limit', 'large_payload', 'reveal_in_batch', 'internal_results']
+EXPECTED_PROBES = ['batch_ge_20', 'custom_gas_reserve', 'batch_ge_8', 'tz4_judged', 'fee_varint_3_bytes', 'gas_near_hard_limit', 'large_payload', 'reveal_in_batch', 'internal_results']
 
-KINDS = ['transaction', 'transaction_kt', 'reveal', 'delegation', 'origination', 'register_global_constant', 'transfer_ticket', 'smart_rollup_add_messages',
+KINDS = ['transaction', 'transaction_kt', 'contract_call', 'reveal', 'delegation', 'origination', 'register_global_constant', 'transfer_ticket', 'smart_rollup_add_messages',
          'smart_rollup_execute_outbox_message']
 
 
@@ -56,6 +56,10 @@ def gen_spec(rng, kind):
         s['amount'] = rng.choice([0, 1, 10**6])
         s['param_len'] = plen
         s['entrypoint'] = rng.choice(['default', 'default', 'do', 'transfer_something_long'])
+    elif kind == 'contract_call':
+        s['arg'] = rng.choice([0, 1, 63, 64, 2**70])
+        s['entrypoint'] = rng.choice(['increment', 'decrement'])
+        s['amount'] = rng.choice([0, 0, 10**6])
     elif kind == 'delegation':
         s['delegate'] = rng.choice(['', cs.OTHERS[0]])
     elif kind == 'origination':
@@ -86,13 +90,20 @@ def gen(seed, tier):
     ngroups = rng.choice([1, 1, 2, 3]) if key != 'tz4' else 1
     steps = []
     for gi in range(ngroups):
-        n = rng.choice([1, 1, 2, 3, 4, 8, 16]) if key != 'tz4' else rng.choice([1, 1, 2, 3, 5])
+        n = rng.choice([1, 1, 2, 3, 4, 8, 16, 20, 25, 33, 50, 97, 130]) if key != 'tz4' else rng.choice([1, 1, 2, 3, 5])
+        big = n > 16
         specs = []
         if 'reveal' in enabled and rng.random() < 0.4:
             specs.append({'kind': 'reveal'})
         while len(specs) < n:
             k = rng.choice([e for e in enabled if e != 'reveal'] or ['transaction'])
-            specs.append(gen_spec(rng, k))
+            sp = gen_spec(rng, k)
+            if big:
+                # a large batch must still fit an operation (32 kB): keep its members small
+                for fld in ('param_len', 'storage_len'):
+                    if sp.get(fld, 0) > 50:
+                        sp[fld] = rng.choice([1, 50])
+            specs.append(sp)
         hard = 1040000 * 1000 // max(1, len(specs))
         gas_mode = rng.choice(['zero', 'small', 'mid', 'near_limit', 'mixed'])
         plan = []
@@ -119,10 +130,16 @@ def gen(seed, tier):
         g = f'g{gi}'
         path = rng.choice(['autofill', 'autofill', 'send', 'fill'])
         steps.append({'op': 'new', 'g': g, 'contents': specs, 'via': rng.choice(['chain', 'bulk']), 'sim_plan': plan})
+        kw = {}
+        if path in ('send', 'autofill') and rng.random() < 0.35:
+            # limits from simulation plus a caller-chosen safety reserve (the fee must follow the limit actually declared)
+            kw['gas_reserve'] = rng.choice([0, 50, 150, 300, 1000, 5000])
+            if rng.random() < 0.5:
+                kw['burn_reserve'] = rng.choice([0, 10, 500])
         if path == 'send':
-            steps.append({'op': 'send', 'g': g})
+            steps.append({'op': 'send', 'g': g, **({'kw': kw} if kw else {})})
         else:
-            st = {'op': path, 'g': g}
+            st = {'op': path, 'g': g, **({'kw': kw} if kw else {})}
             if rng.random() < 0.1:
                 st['faults'] = {str(rng.randint(1, 8)): rng.choice([{'f': 'transient', 'n': rng.randint(1, 4), 'status': 503}, {'f': 'latency', 'ms': 900}])}
             steps.append(st)
@@ -156,6 +173,10 @@ def oracle(world, info):
     world.states.add(f'{path}/{world.key_kind}/n{min(n, 4) if n < 8 else 8}/{"+".join(k[:5] for k in kinds)}/g{len(str(gas))}/s{len(str(size))}/f{zlen(fee)}')
     if n >= 8:
         world.bump(world.probes, 'batch_ge_8')
+    if n >= 20:
+        world.bump(world.probes, 'batch_ge_20')
+    if (g.get('fill_kw') or {}).get('gas_reserve') is not None:
+        world.bump(world.probes, 'custom_gas_reserve')
     if world.key_kind == 'tz4':
         world.bump(world.probes, 'tz4_judged')
     if zlen(fee) >= 3:
@@ -170,8 +191,9 @@ def oracle(world, info):
         world.bump(world.probes, 'internal_results')
     if 1000 * fee >= need_nanotez:
         return None
-    nb = '1' if n == 1 else ('2-3' if n <= 3 else '4+')
-    sig = f'C24/fee-too-low:path={path}:key={world.key_kind}:batch={nb}'
+    nb = '1' if n == 1 else ('2-3' if n <= 3 else ('4-16' if n <= 16 else '17+'))
+    reserve = 'default' if (g.get('fill_kw') or {}).get('gas_reserve') is None else 'custom'
+    sig = f'C24/fee-too-low:path={path}:key={world.key_kind}:batch={nb}:gas_reserve={reserve}'
     world.violations.append({
         'kind': 'fee', 'sig': sig,
         'detail': {'step_index': info['step_index'], 'group': st.get('g'), 'fee': fee, 'required': need_mutez, 'short_by': need_mutez - fee, 'bytes': size,
@@ -196,6 +218,11 @@ def simplify(scn):
             c = cp()
             del c['steps'][i]['faults']
             yield c
+        if st.get('kw'):
+            for k in list(st['kw']):
+                c = cp()
+                del c['steps'][i]['kw'][k]
+                yield c
         if st['op'] == 'new':
             n = len(st['contents'])
             if n > 1:
